@@ -417,10 +417,7 @@ func (r *rwRT) writtenRewriterFields() []string {
 		return ""
 	}
 	mark := func(path string, t types.Type) {
-		// a store to a struct-valued field writes every field of the struct
-		if p, ok := t.Underlying().(*types.Pointer); ok {
-			t = p.Elem()
-		}
+		// a store to a struct-valued field writes every field of the struct (a pointer-valued field is one field)
 		if st, ok := t.Underlying().(*types.Struct); ok && st.NumFields() > 0 {
 			for _, l := range leafFields(st, "") {
 				seen[path+"."+l] = true
